@@ -13,7 +13,8 @@ package props
 //  3. end to end (c17_e2e.go): real signed v2 transactions on a real chain, judged
 //     by consensus.ValidateV2Transaction / ValidateBlock, and compared with the
 //     hand model Sia.Ledger.validate* on valid and single-rule-mutated cases.
-//  4. v1 era (c17_v1.go): taxAdjustedPayout through PrepareContractFormation/Renewal.
+//  4. v1 era (c17_v1.go, c17_v1c.go): taxAdjustedPayout, the rhp/v2+v3 formation/renewal
+//     constructors, cost functions and PayByContract; end to end on a v1-era chain.
 
 import (
 	"encoding/json"
@@ -1005,7 +1006,7 @@ func (r *c17Run) do(line string) c17Out {
 
 func runC17(c *fw.Ctx) {
 	res := c.Res
-	res.Rule = "pure: every rhp/v4 constructor/cost function on (a) arbitrary 128-bit/64-bit field values weighted to 0, 2^64+-2, 2^128-3.., sector multiples (translator self-test incl. panics) and (b) structured cases: consensus-valid contracts x valid requests with exact-balance, one-short, zero-price, max-batch and max-height boundaries; a case is non-trivial when the request is valid (pay: cost>0); distinct by op line. sequences: random walks of append/free/roots/fund/replenish/renew/refresh(full,partial) from NewContract, each step judged. e2e: real signed v2 transactions (formation, revisions, renewal/refresh) on a mined chain judged by ValidateV2Transaction+ValidateBlock, with exact funding by the cost functions; the same transactions and single-rule mutations compared with the hand model Sia.Ledger.validate*. v1: taxAdjustedPayout via rhp/v2+v3 PrepareContractFormation/Renewal against the consensus tax equation."
+	res.Rule = "pure: every rhp/v4 constructor/cost function on (a) arbitrary 128-bit/64-bit field values weighted to 0, 2^64+-2, 2^128-3.., sector multiples (translator self-test incl. panics) and (b) structured cases: consensus-valid contracts x valid requests with exact-balance, one-short, zero-price, max-batch and max-height boundaries; a case is non-trivial when the request is valid (pay: cost>0); distinct by op line. sequences: random walks of append/free/roots/fund/replenish/renew/refresh(full,partial) from NewContract, each step judged. e2e: real signed v2 transactions (formation, revisions, renewal/refresh) on a mined chain judged by ValidateV2Transaction+ValidateBlock, with exact funding by the cost functions; the same transactions and single-rule mutations compared with the hand model Sia.Ledger.validate*. v1: taxAdjustedPayout via rhp/v2+v3 PrepareContractFormation/Renewal against the consensus tax equation; rhp1c lines: rhp/v2 formation/host payouts/renewal/collateral, rhp/v3 renewal costs/host payouts/renewal and PayByContract (exact-balance, one-short, malformed output lists) vs generated+hand model and the statement; e2e-v1: formation, PayByContract revisions, v2/v3-style renewals as signed v1 transactions through ValidateTransaction+ValidateBlock on chain.NewSim(v1)."
 	if c.Replay != "" {
 		c17Replay(c)
 		return
@@ -1079,6 +1080,7 @@ func runC17(c *fw.Ctx) {
 	c.Compare(run.lines, run.outs)
 
 	c17V1(c)
+	c17V1Contracts(c)
 	c17E2E(c)
 }
 
@@ -1217,11 +1219,22 @@ func c17Replay(c *fw.Ctx) {
 	}
 	switch v.Replay.Kind {
 	case "line":
+		if strings.HasPrefix(v.Replay.Line, "rhp1c") {
+			o := c17V1Eval(v.Replay.Line)
+			c.Res.Eval(v.Replay.Line, o.nontriv)
+			for _, x := range o.viol {
+				c.Res.Violate(x)
+			}
+			c.Compare([]string{v.Replay.Line}, []string{o.out})
+			return
+		}
 		run := &c17Run{c: c}
 		run.do(v.Replay.Line)
 		c.Compare(run.lines, run.outs)
 	case "v1":
 		c17V1(c)
+	case "e2e-v1":
+		c17V1Contracts(c)
 	default: // e2e cases are replayed by re-running the e2e part with the recorded seed
 		c17E2E(c)
 	}
